@@ -9,7 +9,8 @@ from ..core import SubCheck, Fail, Discard, metric, HarnessError
 
 RULE = ("lat in [-90, 90], lon in [-360, 360] incl. poles and cardinal meridians; vectors up to 1e7 m; symmetric PSD matrices "
         "(full rank, rank 2, rank 1, diagonal, zero, condition number up to 1e8), 3x1 variance columns, arbitrary (non-symmetric) "
-        "cross-covariance blocks; all integer degrees of freedom -5..200 (complete); non-trivial = off the poles/equator/cardinal "
+        "cross-covariance blocks, fully correlated station pairs, tied variances; matrices held as fresh arrays, views of a larger "
+        "array, Fortran order, int64 / float32; angle objects for both vector conversions; all integer degrees of freedom -5..200 (complete); non-trivial = off the poles/equator/cardinal "
         "meridians with a non-diagonal matrix (rotations), any dof (table)")
 ASSUMPTIONS = ["closed forms: east = (-sin lon, cos lon, 0), north = (-sin lat cos lon, -sin lat sin lon, cos lat), "
                "up = (cos lat cos lon, cos lat sin lon, sin lat) (the ellipsoid normal)",
